@@ -3,7 +3,9 @@ import InfluxQL.Lemmas.Digits
 import InfluxQL.Model.SetTimeRangeSpec
 /-
 Helper lemmas for C18: what `rewriteNoTime` does on the class, `creduce` on the rewritten
-condition, the shape of the condition after one `SetTimeRange`, and the iteration.
+condition, the shape of the condition after one `SetTimeRange`, and the iteration. The last two
+sections are about the text route of the previous implementation only (`textRoute`): the text it
+built is the print of the tree the current code builds.
 -/
 namespace InfluxQL
 open Gen
@@ -293,25 +295,6 @@ theorem reduceBin_and_true (tbl : List (Char × Char)) (c : RCtx) (x : Expr) (h 
 
 /-! ### the parentheses around a top-level OR -/
 
-theorem print_paren (e : Expr) : (Expr.paren e).print = ['('] ++ e.print ++ [')'] := rfl
-
-/-- The text `rewriteWithoutTimeDimensions` returns is the print of the grouped tree. -/
-theorem rewrittenText_eq_print (tbl : List (Char × Char)) (c : Expr) :
-    rewrittenText tbl c = (groupForAnd (rewriteNoTime tbl c)).print := by
-  by_cases h : topIsOr (rewriteNoTime tbl c) = true
-  · show (if topIsOr (rewriteNoTime tbl c) = true then _ else _) =
-      Expr.print (if topIsOr (rewriteNoTime tbl c) = true then _ else _)
-    rw [if_pos h, if_pos h, print_paren]
-  · show (if topIsOr (rewriteNoTime tbl c) = true then _ else _) =
-      Expr.print (if topIsOr (rewriteNoTime tbl c) = true then _ else _)
-    rw [if_neg h, if_neg h]
-
-/-- The text handed to the parser starts with the print of the grouped tree. -/
-theorem setTimeRangeText_eq (tbl : List (Char × Char)) (c : Expr) (w : Window) :
-    setTimeRangeText tbl (some c) w =
-      (groupForAnd (rewriteNoTime tbl c)).print ++ [' ', 'A', 'N', 'D', ' '] ++ boundsText w := by
-  simp only [setTimeRangeText, rewrittenText_eq_print]
-
 /-- The grouped tree never has an `OR` at the top: whatever stands left of the appended `AND`
 binds at least as tightly as `AND`. -/
 theorem topIsOr_groupForAnd (e : Expr) : topIsOr (groupForAnd e) = false := by
@@ -352,9 +335,11 @@ theorem reduce_geBound (c : RCtx) (s : Int) : creduce c (geBound s) = geBound s 
 theorem reduce_ltBound (c : RCtx) (s : Int) : creduce c (ltBound s) = ltBound s :=
   reduce_stable c .LT timeVar _ (by decide) (by decide) (stable_bound _)
 
-theorem stepSpec_eq (fa : FloatArith) (tbl : List (Char × Char)) (c : Expr) (w : Window) :
-    stepSpec fa tbl c w = build fa (creduce (nilRCtx fa) (groupForAnd (rewriteNoTime tbl c))) w := by
-  unfold stepSpec expectedTree build
+/-- `creduce` of the tree `SetTimeRange` builds, in terms of the reduced (grouped) rewritten condition. -/
+theorem tree_reduce (fa : FloatArith) (tbl : List (Char × Char)) (c : Expr) (w : Window) :
+    creduce (nilRCtx fa) (setTimeRangeTree tbl (some c) w) =
+      build fa (creduce (nilRCtx fa) (groupForAnd (rewriteNoTime tbl c))) w := by
+  unfold setTimeRangeTree build
   rw [creduce, creduce, reduce_geBound, reduce_ltBound]
 
 /-- The three shapes of the condition after a call. -/
@@ -531,18 +516,46 @@ theorem ntPart_spec (tbl : List (Char × Char)) (fa : FloatArith) (c : Expr) (h 
     unfold ntPart parenCost
     omega
 
-/-- Under the print → parse hypothesis, `SetTimeRange` computes `stepSpec`. -/
-theorem setTimeRange_of_RT (tbl : List (Char × Char)) (fa : FloatArith) (c : Expr) (w : Window)
-    (hcls : strClass tbl c = true) (hrt : RT tbl c w) :
-    setTimeRange fa tbl (some c) w = .ok (stepSpec fa tbl c w) := by
-  unfold setTimeRange
-  rw [hrt]
-  simp only [CReduce]
-  have hs : creduce (nilRCtx fa) (expectedTree tbl c w) = stepSpec fa tbl c w := rfl
-  rw [hs, stepSpec_eq]
+/-- `SetTimeRange` computes `stepSpec` — by definition, for every expression and window. -/
+theorem setTimeRange_eq (tbl : List (Char × Char)) (fa : FloatArith) (c : Expr) (w : Window) :
+    setTimeRange fa tbl (some c) w = .ok (stepSpec fa tbl c w) := rfl
+
+/-- On the class the new condition is `build` of the reduced non-time part (one of the three shapes of
+`build_cases`; none is a parenthesis, so `Reduce`'s unwrapping at the top does nothing). -/
+theorem stepSpec_eq (fa : FloatArith) (tbl : List (Char × Char)) (c : Expr) (w : Window)
+    (hcls : strClass tbl c = true) : stepSpec fa tbl c w = build fa (ntPart fa tbl c) w := by
+  unfold stepSpec CReduce
+  rw [tree_reduce]
   have hN := (ntPart_spec tbl fa c hcls).1
-  rcases build_cases tbl fa (ntPart fa tbl c) w hN with ⟨_, hb⟩ | ⟨_, hb⟩ | ⟨_, hb⟩ <;>
-    (unfold ntPart at hb; rw [hb])
+  show (match build fa (ntPart fa tbl c) w with | .paren inner => inner | r => r) = build fa (ntPart fa tbl c) w
+  rcases build_cases tbl fa (ntPart fa tbl c) w hN with ⟨_, hb⟩ | ⟨_, hb⟩ | ⟨_, hb⟩ <;> rw [hb]
+
+mutual
+  /-- The rewrite is the identity on an expression none of whose binary nodes has a reference to
+  time as an operand — whatever else the expression is made of. -/
+  theorem rewriteNoTime_noTimeBound (tbl : List (Char × Char)) : ∀ (e : Expr), noTimeBound tbl e = true →
+      rewriteNoTime tbl e = e
+    | .binary op l r, h => by
+      simp only [noTimeBound, Bool.and_eq_true, Bool.not_eq_true'] at h
+      obtain ⟨⟨⟨hl, hr⟩, h1⟩, h2⟩ := h
+      simp only [rewriteNoTime, rewriteNoTime_noTimeBound tbl l h1, rewriteNoTime_noTimeBound tbl r h2, hl, hr,
+        Bool.false_eq_true, or_self, if_false]
+    | .paren e, h => by
+      simp only [noTimeBound] at h
+      simp only [rewriteNoTime, rewriteNoTime_noTimeBound tbl e h]
+    | .call n args, h => by
+      simp only [noTimeBound] at h
+      rw [rewriteNoTime, rewriteArgs_noTimeBound tbl args h]
+    | .varRef .., _ | .distinct .., _ | .wildcard .., _ | .regex .., _ | .string .., _
+    | .number .., _ | .integer .., _ | .unsigned .., _ | .duration .., _ | .time .., _ | .nil, _
+    | .list .., _ | .boundParam .., _ | .boolean .., _ => by simp [rewriteNoTime]
+  theorem rewriteArgs_noTimeBound (tbl : List (Char × Char)) : ∀ (args : List Expr), noTimeBoundArgs tbl args = true →
+      rewriteArgs tbl args = args
+    | [], _ => by simp [rewriteArgs]
+    | a :: rest, h => by
+      simp only [noTimeBoundArgs, Bool.and_eq_true] at h
+      rw [rewriteArgs, rewriteNoTime_noTimeBound tbl a h.1, rewriteArgs_noTimeBound tbl rest h.2]
+end
 
 
 
@@ -657,11 +670,31 @@ theorem conditionExpr_build (ctx : CCtx) (fa : FloatArith) (N : Expr) (w : Windo
     · intro L
       rw [strip_preserves, evalOpt, hr3 L]
 
-/-! ### the text handed to the parser is the print of `expectedTree`
+/-! ### the text route: the text the old code handed to the parser is the print of the tree
 
 A printed instant consists of digits and `- T : . Z`, none of which `QuoteString` escapes; `time`
-needs no quotes. So the `fmt.Sprintf` text of `SetTimeRange` is exactly `String()` of the tree the
-hypothesis `RT` expects back. -/
+needs no quotes. So the `fmt.Sprintf` text of the previous `SetTimeRange` is exactly `String()` of
+the tree the current code builds (`setTimeRangeTree`). -/
+
+theorem print_paren (e : Expr) : (Expr.paren e).print = ['('] ++ e.print ++ [')'] := rfl
+
+/-- The text `rewriteWithoutTimeDimensions` returns is the print of the grouped tree. -/
+theorem rewrittenText_eq_print (tbl : List (Char × Char)) (c : Expr) :
+    rewrittenText tbl c = (groupForAnd (rewriteNoTime tbl c)).print := by
+  by_cases h : topIsOr (rewriteNoTime tbl c) = true
+  · show (if topIsOr (rewriteNoTime tbl c) = true then _ else _) =
+      Expr.print (if topIsOr (rewriteNoTime tbl c) = true then _ else _)
+    rw [if_pos h, if_pos h, print_paren]
+  · show (if topIsOr (rewriteNoTime tbl c) = true then _ else _) =
+      Expr.print (if topIsOr (rewriteNoTime tbl c) = true then _ else _)
+    rw [if_neg h, if_neg h]
+
+/-- The text handed to the parser starts with the print of the grouped tree. -/
+theorem setTimeRangeText_eq (tbl : List (Char × Char)) (c : Expr) (w : Window) :
+    setTimeRangeText tbl (some c) w =
+      (groupForAnd (rewriteNoTime tbl c)).print ++ [' ', 'A', 'N', 'D', ' '] ++ boundsText w := by
+  simp only [setTimeRangeText, rewrittenText_eq_print]
+
 
 /-- Characters of a printed instant: digits and `- T : . Z`. -/
 def tsChar (c : Char) : Bool :=
@@ -743,11 +776,11 @@ theorem print_binary (op : Token) (l r : Expr) :
 theorem print_string (v : Str) : (Expr.string v).print = quoteString v := rfl
 theorem print_timeVar : timeVar.print = ['t', 'i', 'm', 'e'] := by decide
 
-/-- The text `SetTimeRange` hands to the parser is the print of `expectedTree`. -/
+/-- The text the old `SetTimeRange` handed to the parser is the print of `setTimeRangeTree`. -/
 theorem setTimeRangeText_is_print (tbl : List (Char × Char)) (c : Expr) (w : Window) :
-    setTimeRangeText tbl (some c) w = (expectedTree tbl c w).print := by
+    setTimeRangeText tbl (some c) w = (setTimeRangeTree tbl (some c) w).print := by
   rw [setTimeRangeText_eq]
-  unfold expectedTree geBound ltBound boundsText
+  unfold setTimeRangeTree geBound ltBound boundsText
   simp only [print_binary, print_string, print_timeVar, quoteString_format]
   have e1 : Token.AND.str = ['A', 'N', 'D'] := by decide
   have e2 : Token.GTE.str = ['>', '='] := by decide
@@ -755,11 +788,10 @@ theorem setTimeRangeText_is_print (tbl : List (Char × Char)) (c : Expr) (w : Wi
   rw [e1, e2, e3]
   simp [List.append_assoc]
 
-/-! ### deciding the print → parse hypothesis for a concrete condition
+/-! ### comparing trees in the kernel
 
 `Expr` is a nested inductive without `DecidableEq`; `Expr.same` is a structural Boolean comparison
-that implies equality, so that `RT` for a concrete condition and window can be checked by running
-the parser model in the kernel (`rtCheck`, `decide +kernel`). -/
+that implies equality, so that statements about concrete trees can be checked with `decide +kernel`. -/
 
 mutual
   def Expr.same : Expr → Expr → Bool
@@ -819,30 +851,12 @@ mutual
       rw [Expr.same_eq a _ h.1, sameArgs_eq as _ h.2]
 end
 
-/-- `RT` as a computation: run the parser model on the text and compare the trees. -/
-def rtCheck (tbl : List (Char × Char)) (c : Expr) (w : Window) : Bool :=
-  match parseExprText (setTimeRangeText tbl (some c) w) [] tbl with
-  | .ok e => Expr.same e (expectedTree tbl c w)
-  | .error _ => false
-
-theorem RT_of_rtCheck (tbl : List (Char × Char)) (c : Expr) (w : Window) (h : rtCheck tbl c w = true) :
-    RT tbl c w := by
-  unfold rtCheck at h
-  unfold RT
-  split at h
-  · next e he => rw [he, Expr.same_eq e _ h]
-  · cases h
-
-/-- `RTSeq` as a computation. -/
-def rtSeqCheck (fa : FloatArith) (tbl : List (Char × Char)) : Expr → List Window → Bool
-  | _, [] => true
-  | c, w :: ws => rtCheck tbl c w && rtSeqCheck fa tbl (stepSpec fa tbl c w) ws
-
-theorem RTSeq_of_rtSeqCheck (fa : FloatArith) (tbl : List (Char × Char)) :
-    ∀ (ws : List Window) (c : Expr), rtSeqCheck fa tbl c ws = true → RTSeq fa tbl c ws
-  | [], _, _ => trivial
-  | w :: ws, c, h => by
-    simp only [rtSeqCheck, Bool.and_eq_true] at h
-    exact ⟨RT_of_rtCheck tbl c w h.1, RTSeq_of_rtSeqCheck fa tbl ws _ h.2⟩
+/-- Where the text of the old route parsed back to the tree it was printed from, the old route
+computed what the tree-building `SetTimeRange` computes. -/
+theorem textRoute_eq_of_round_trip (fa : FloatArith) (tbl : List (Char × Char)) (c : Expr) (w : Window)
+    (h : parseExprText (setTimeRangeTree tbl (some c) w).print [] tbl = .ok (setTimeRangeTree tbl (some c) w)) :
+    textRoute fa tbl (some c) w = setTimeRange fa tbl (some c) w := by
+  unfold textRoute setTimeRange
+  rw [setTimeRangeText_is_print, h]
 
 end InfluxQL
